@@ -47,6 +47,13 @@ def build(cell, **kw):
         return pw.DTCWTForward(biort=cell['biort'], qshift=cell['qshift'], J=cell['J'], **kw)
 
 
+def build_tuple(cell, biort, qshift):
+    import torch
+    import pytorch_wavelets as pw
+    with util.default_dtype(torch.float64):
+        return pw.DTCWTForward(biort=biort, qshift=qshift, J=cell['J'])
+
+
 def to_complex(h):
     a = util.np64(h)
     return a[..., 0] + 1j * a[..., 1]
@@ -99,6 +106,18 @@ def run_cell(cell, seed):
         x = impulse_input(cell, seed) if kind == 'impulse' else util.make_input(kind, [cell['N'], cell['C']] + sp, seed)
         ok, y = util.call_lib(mod, x)
         out.append(judge(cell, kind, x, ok, y))
+    # filters given directly as arrays (documented alternative to the names) must give the same transform
+    import dtcwt.coeffs as dc
+    bt, qt = dc.biort(cell['biort']), dc.qshift(cell['qshift'])
+    case = {'cell': cell, 'input': 'randn', 'form': 'filter tuples'}
+    ok, modt = util.call_lib(build_tuple, cell, (bt[0], bt[2]), (qt[0], qt[1], qt[4], qt[5]))
+    if not ok:
+        out.append(res(VIOLATED, case, 'M-REF', 'constructor with filter tuples raised %r' % (modt,)))
+    else:
+        x = util.make_input('randn', [cell['N'], cell['C']] + sp, seed + 17)
+        ok, y = util.call_lib(modt, x)
+        out.append(judge(cell, 'randn', x, ok, y))
+        out[-1]['case'] = dict(out[-1]['case'], form='filter tuples')
     x = util.make_input('randn', [1, 1] + sp, seed)
     if util.call_lib(mod, x)[0]:
         st, detail, info = util.linear_certificate(lambda t: mod(t), [x], [torch.zeros_like(x)])
